@@ -10,20 +10,40 @@ PLAN = dict(
          "signature d + x~*r hits n-1, n (t=0, U=V=O), n+1, 2^256-1, 2^256, ..., from static keys tied to the ephemeral key "
          "(P = [x~]R: the peer's addition is a doubling; P = -[x~]R: the sum is O and both must refuse), from ephemeral points whose x coordinate is "
          "extreme in the bits x~ keeps (bounded search over small multiples of G), from identity lengths 0 (default) .. 8191 "
-         "and 8192+ (must fail), key lengths 1..200 and a few longer, and from seeded random draws; distinct = distinct class "
-         "keys (generator / confirmation mode / key-length class / identity classes / API path), none is trivial",
+         "and 8192+ (must fail), key lengths 1..200 and a few longer, and from seeded random draws; "
+         "c08.history: a case is one object history - two or three parties with ONE long-lived key object each per implementation "
+         "(*sm2.PrivateKey from three constructors, *ecdh.PrivateKey, the public-key objects their peers hold, a hash object) and "
+         "30-45 operations drawn from the case PRNG: sessions opened between any ordered pair (a party with itself, one party in both "
+         "roles), up to three sessions alive and advancing interleaved on one key object, InitKeyExchange / RepondKeyExchange called "
+         "again on one object, SetPeerParameters after construction, refused calls (invalid RA/RB, wrong SB/SA, exhausted random "
+         "source, identity too long, invalid static key, step before SetPeerParameters, second SetPeerParameters) followed by the "
+         "honest step on the same objects, Destroy() of either protocol object at every stage (and twice), ephemeral scalars and "
+         "their ecdh key objects reused, nil / empty / explicit (also the explicit default) identities mixed, every caller-owned "
+         "byte slice overwritten after the call in three of four histories; finally every session alive is completed, everything is "
+         "destroyed and fresh sessions are run on the same key objects; "
+         "distinct = distinct class "
+         "keys (generator / confirmation mode / key-length class / identity classes / API path; for histories: parties x overwrite "
+         "mode x identity mix, and every situation the history went through), none is trivial",
     jobs=both("c08.agree", _CFG_EC + ["ia32"], shards=(8, 16), floor=100)
          + both("c08.confirm", _CFG, shards=(4, 8), floor=10)
          + both("c08.peers", _CFG_EC, shards=(4, 8), floor=50)
          + both("c08.ecdh", _CFG_EC + ["ia32"], shards=(4, 8), floor=50)
-         + both("c08.implicitsig", _CFG + ["ia32"], shards=(1, 2), floor=20),
+         + both("c08.implicitsig", _CFG + ["ia32"], shards=(1, 2), floor=20)
+         # object histories are about state kept in Go objects, not about a dispatch tier: one assembly and one generic (32-bit) build
+         + both("c08.history", ["avx2", "ia32"], shards=(4, 8), floor=40),
     assumptions=["harness/ref/sm2kx (GB/T 32918.3 on math/big affine arithmetic of ref/ec and the bitwise SM3 of ref/sm3) is right: "
                  "validated at every start against the recommended-curve example of GB/T 32918.5 / GM/T 0003.5 (public keys, ZA, ZB, "
                  "RA, RB, key, S1/SB, S2/SA) and the three vectors of the repository's tests, and by U = V on every session",
                  "in three of four sessions the caller's buffers (byte inputs of every constructor, identities, returned slices) are "
                  "overwritten (zeros / 0xFF / random) as soon as the call has returned; results must still equal the reference of the original values",
                  "ephemeral scalars are injected through the scripted random source (32 bytes consumed, checked), so both "
-                 "implementations and the reference see identical inputs"],
+                 "implementations and the reference see identical inputs",
+                 "histories: nothing is demanded from a KeyExchange object after its Destroy(), nor from the peer object of a destroyed "
+                 "one when the two were wired by pointer (the *ecdsa.PublicKey a KeyExchange returns is its own state, which Destroy is "
+                 "documented to clear); after a refused step the same step is repeated honestly (state of a refused call is not relied "
+                 "on, except after the documented refusal of a second SetPeerParameters); an honest SetPeerParameters after a refused "
+                 "one may be refused too ('can be called only once') - observation; what an object does when the caller ignores a "
+                 "refused SetPeerParameters is an observation; whether an exhausted random source is reported is C12's clause"],
 )
 
 CLAIM = dict(
@@ -37,9 +57,18 @@ CLAIM = dict(
          "flag is; invalid peer points (infinity, off-curve, other curve, coordinate >= p incl. non-canonical forms of valid "
          "points, negative/oversized integers, malformed encodings, all single-bit flips of valid encodings) are presented at "
          "each step where a peer value enters (static key, RA, RB, byte decoders) and must yield an error, never a key or a "
-         "panic. Exploration over the listed generators, on the ADX, non-ADX, non-AVX2 (SSE) and pure-Go back ends.",
+         "panic; so must keys of NIST curves labelled with their own Curve object (valid there, not on the SM2 curve). "
+         "Object histories (c08.history): on long-lived key objects of both implementations, sessions are interleaved, restarted, "
+         "failed and retried, late-bound through SetPeerParameters and destroyed at every stage while the caller overwrites its "
+         "buffers; every honest step of every session of the history must give the reference's RA, RB, SB, SA and key in both "
+         "implementations, every dishonest step must be refused, a step before the peer parameters are known must be refused, and "
+         "at the end the caller's key objects must be unchanged (scalar, public key, Equal/Public/Curve laws of the ecdh objects). "
+         "Exploration over the listed generators, on the ADX, non-ADX, non-AVX2 (SSE), pure-Go and 32-bit back ends.",
     design_ref="DESIGN.md 6 (C08)",
     note="trusted: harness/ref/sm2kx, ref/ec, ref/sm3, math/big; an empty (absent) confirmation value means 'no confirmation' "
-         "by the API's contract and is not treated as a forgery; nil coordinates and foreign Curve objects are caller errors, not peer data",
-    technique="differential reference monitor + accept-set monitor on peer points and confirmation values + panic monitor + scripted random source",
+         "by the API's contract and is not treated as a forgery; nil coordinates and SM2 points mislabelled with a foreign Curve object are "
+         "caller errors, not peer data (a key of a foreign curve labelled with that curve is peer data and must be refused); rejection "
+         "sampling of the ephemeral scalar is decided by C12, the range checks of ecdh/sm2.NewPrivateKey by C05",
+    technique="differential reference monitor + accept-set monitor on peer points and confirmation values + model-based object-history "
+              "exploration + panic monitor + scripted random source",
 )
